@@ -92,6 +92,34 @@ def run_cases(ctx, binp, drv, cases, tag=""):
     return res
 
 
+def run_partial(ctx, binp, drv, case, tag=""):
+    """A case in which the process died (e.g. the overflow guard of `retain` aborts once a count was driven below
+    zero): the case is run alone and the lines written before the abort are replayed: the first refused event is
+    the verdict.  Returns the verdict message or None."""
+    import subprocess
+    f = os.path.join(ctx.workdir, f"term-partial{tag}.txt")
+    vf.write_cases(f, [case])
+    try:
+        p = subprocess.run([binp, "run", f], stdout=subprocess.PIPE, stderr=subprocess.DEVNULL, timeout=600,
+                           env={**os.environ, "VERIF_HANG_MS": "40000"})
+    except Exception:
+        return None
+    lines = p.stdout.decode("utf-8", "replace").split("\n")
+    if lines and not lines[-1].endswith("END"):
+        lines = lines[:-1]      # (possibly cut in the middle)
+    if not lines or not lines[0].startswith("CASE "):
+        return None
+    if lines[-1] != "END":
+        lines.append("END")
+    impl = f + ".impl"
+    open(impl, "w").write("\n".join(lines) + "\n")
+    _ok, bad, _st = vf.run_driver(drv, impl, f + ".verdicts")
+    for _c, m in bad:
+        if "kind=prop" in m:
+            return m + " [replay of the lines written before the process died]"
+    return None
+
+
 def _events_of(impl_file, cid, limit=400):
     try:
         for h, lines in vf.parse_cases(open(impl_file).read()):
@@ -116,6 +144,8 @@ def shrink(ctx, binp, drv, header, ops, budget=40):
             return None
         for _c, m in bads:
             if "kind=prop" in m and not vf.RESOURCE_RE.search(m):
+                if "CRASH" in m:
+                    return run_partial(ctx, binp, drv, (header, cand), tag="-shrink") or m
                 return m
         return None
 
@@ -156,6 +186,13 @@ def run_stage(ctx):
     res = run_cases(ctx, binp, drv, cases)
     st = res["stats"]
     nt = lambda k: int(st.get(k, 0))
+    # cases in which the process died: replay what was written before
+    crashed = [(cid, m) for cid, m in res["bad"] if "implementation panicked/aborted/hung: CRASH" in m]
+    for cid, m in crashed[:3]:
+        pm = run_partial(ctx, binp, drv, by_id[cid], tag="-" + cid)
+        if pm is not None:
+            res["bad"] = [(c, (pm if c == cid else mm)) for c, mm in res["bad"]]
+            ctx.add_stat("term_crashed_cases_replayed_up_to_the_abort", 1)
     # the tie is vacuous if the build logs nothing (hook commit missing / flag not passed): machinery failure
     if not any("kind=prop" in m for _, m in res["bad"]):
         for key, what in (("ev_term_get_new", "get_edge (new)"), ("ev_term_retain", "reference count increment"), ("ev_term_release", "reference count decrement"),
